@@ -12,6 +12,7 @@ import (
 	"strings"
 
 	"github.com/tonkeeper/tongo/boc"
+	"github.com/tonkeeper/tongo/tlb"
 	"verifharness/h"
 )
 
@@ -27,6 +28,8 @@ func init() {
 		"go.obtained":  goObtained,
 		"go.boc":       goBoc,
 		"go.nopanic":   goNoPanic,
+		"cell.forms":   execCellForms,
+		"go.msgtx":     goMsgTx,
 		"go.testfiles": func(a []string) string { return "FAIL no-testdata-bocs-found" },
 	})})
 }
@@ -59,6 +62,82 @@ func execCellAll(a []string) string {
 	}
 	sum := sha256.Sum256([]byte(strings.Join(lines, "\n") + "\n"))
 	return fmt.Sprintf("ok %d %s", len(t), hex.EncodeToString(sum[:]))
+}
+
+// cell.forms <table> -> "ok <Level()> <Hash() hex> <Hash256() hex> <HashString()>" of row 0
+func execCellForms(a []string) string {
+	cs := h.BuildCells(h.ParseTable(a[0]))
+	hs, err := cs[0].Hash()
+	h256, err2 := cs[0].Hash256()
+	str, err3 := cs[0].HashString()
+	if err != nil || err2 != nil || err3 != nil {
+		if err == nil || err2 == nil || err3 == nil {
+			return "FAIL hash-forms-disagree-about-the-error"
+		}
+		return "err"
+	}
+	return fmt.Sprintf("ok %d %s %s %s", cs[0].Level(), h.Hex(hs), h.Hex(h256[:]), str)
+}
+
+// tryMessage / tryTransaction decode a cell with the library's decoders (nil when it is not one).
+func tryMessage(c *boc.Cell) (m *tlb.Message) {
+	defer func() {
+		if recover() != nil {
+			m = nil
+		}
+	}()
+	var x tlb.Message
+	if tlb.Unmarshal(c, &x) != nil {
+		return nil
+	}
+	return &x
+}
+
+func tryTransaction(c *boc.Cell) (t *tlb.Transaction) {
+	defer func() {
+		if recover() != nil {
+			t = nil
+		}
+	}()
+	var x tlb.Transaction
+	if tlb.Unmarshal(c, &x) != nil {
+		return nil
+	}
+	return &x
+}
+
+// go.msgtx <m|t> <table>: the hash field of the tlb.Message / tlb.Transaction decoded from row 0 equals the
+// representation hash of that cell BY THE DEFINITION (plain decoder and decoder with a caching hasher).
+func goMsgTx(a []string) string {
+	t := h.ParseTable(a[1])
+	want := h.NewSpecHasher(t).Hash(0, 3)
+	for _, withHasher := range []bool{false, true} {
+		c := h.BuildCells(t)[0]
+		unm := tlb.Unmarshal
+		if withHasher {
+			unm = tlb.NewDecoder().Unmarshal
+		}
+		var got []byte
+		if a[0] == "m" {
+			var m tlb.Message
+			if err := unm(c, &m); err != nil {
+				return "FAIL message-no-longer-decodes"
+			}
+			hh := m.Hash(false)
+			got = hh[:]
+		} else {
+			var x tlb.Transaction
+			if err := unm(c, &x); err != nil {
+				return "FAIL transaction-no-longer-decodes"
+			}
+			hh := x.Hash()
+			got = hh[:]
+		}
+		if !bytes.Equal(got, want) {
+			return fmt.Sprintf("FAIL decoded-hash-field-differs-from-definition kind=%s hasher=%v got=%x want=%x", a[0], withHasher, got, want)
+		}
+	}
+	return "ok"
 }
 
 // lmask <mask> <level> -> "level hashIndex hashesCount apply significant"
@@ -395,6 +474,7 @@ func emitTable(g *h.G, t []h.Row, class string) {
 	g.Emit("cell.levels", ts)
 	g.Emit("cell.hash", ts)
 	g.Emit("cell.all", ts)
+	g.Emit("cell.forms", ts)
 	g.Emit("go.spec", ts)
 }
 
@@ -472,7 +552,7 @@ func genC02(g *h.G) {
 		g.Emit("lmask", strconv.FormatUint(uint64(g.Rng.Uint32())>>uint(g.Rng.Intn(32)), 10), strconv.Itoa(g.Rng.Intn(32)))
 	}
 	// ordinary DAGs
-	n := g.Scale(400, 8000)
+	n := g.Scale(400, 40000)
 	for i := 0; i < n; i++ {
 		t := g.RandOrdinaryTable(h.DagOpts{MaxCells: g.Pick(1, 3, 8, 40)})
 		emitTable(g, t, "class_ordinary_dag")
@@ -485,7 +565,7 @@ func genC02(g *h.G) {
 		}
 	}
 	// well-formed exotic DAGs over all five types and all masks
-	n = g.Scale(1500, 30000)
+	n = g.Scale(1500, 150000)
 	for i := 0; i < n; i++ {
 		t := g.RandExoticTable(g.Pick(2, 4, 8, 16, 40))
 		if !h.WFExotic(t) {
@@ -501,6 +581,26 @@ func genC02(g *h.G) {
 			g.Emit("go.cached", ts, strconv.Itoa(g.Rng.Intn(1<<30)))
 			g.Emit("go.reads", ts, strconv.Itoa(g.Rng.Intn(1<<30)))
 			g.Emit("go.obtained", ts)
+		}
+	}
+	// Merkle updates over two pruned versions of a tree (the state_update of a block): pruned branches on both sides
+	for i := 0; i < g.Scale(300, 6000); i++ {
+		t, na, nb := g.MerkleUpdateTable()
+		if !h.WFExotic(t) {
+			panic("generator produced a Merkle update violating WFExotic: " + h.TableString(t))
+		}
+		if na > 0 && nb > 0 {
+			g.Count("merkle_update_pruned_on_both_sides")
+		} else {
+			g.Count("merkle_update_pruned_on_one_side_or_none")
+		}
+		emitTable(g, t, "class_merkle_update")
+		if specCost(t) <= 2500 {
+			g.Emit("spec.levels", h.TableString(t))
+		}
+		if i%4 == 0 {
+			g.Emit("go.obtained", h.TableString(t))
+			g.Emit("go.cached", h.TableString(t), strconv.Itoa(g.Rng.Intn(1<<30)))
 		}
 	}
 	// every bit length 0..1023 (all numbers of trailing bits at every length), as leaf and with children
@@ -542,7 +642,7 @@ func genC02(g *h.G) {
 	}
 	// malformed stream: any type byte 0..7, any 3-bit mask, any data length, masks unrelated to the children —
 	// outside WFExotic; hashing must still not panic (no_panic_any) and model = code exactly
-	for i := 0; i < g.Scale(600, 12000); i++ {
+	for i := 0; i < g.Scale(600, 60000); i++ {
 		t := g.RandOrdinaryTable(h.DagOpts{MaxCells: g.Pick(1, 2, 4, 8)})
 		for j := range t {
 			if g.Rng.Intn(2) == 0 {
@@ -564,7 +664,7 @@ func genC02(g *h.G) {
 		g.Emit("go.nopanic", ts)
 	}
 	// NewCellWithBits(ReadBits n)
-	nrb := g.Scale(600, 6000)
+	nrb := g.Scale(600, 30000)
 	for i := 0; i < nrb; i++ {
 		bl := g.RandBitLen(0)
 		skip := 0
